@@ -636,6 +636,31 @@ func main() {
 	}
 	fmt.Fprintf(&out, "/-- every slice / index expression in the `Call` methods of tick/stateful/functions.go (other than\n`args[k]` behind a `len(args)` check), with the guards that dominate it. -/\ndef funcSliceSites : List SliceSite := [%s]\n\n", strings.Join(sliceSites, ", "))
 
+	// inventory of every slice / index expression in the parser and the node constructors
+	// (tick/ast/parser.go, tick/ast/node.go): compared with a REVIEWED list in Kap/Model/C05.lean
+	var astSites []string
+	for _, rel := range []string{"tick/ast/parser.go", "tick/ast/node.go"} {
+		f := parseFile(repo, rel)
+		for _, d := range f.Decls {
+			fd, ok := d.(*ast.FuncDecl)
+			if !ok || fd.Body == nil {
+				continue
+			}
+			recv := ""
+			if fd.Recv != nil && len(fd.Recv.List) == 1 {
+				recv = strings.TrimPrefix(src(fd.Recv.List[0].Type), "*") + "."
+			}
+			ast.Inspect(fd.Body, func(x ast.Node) bool {
+				switch x.(type) {
+				case *ast.SliceExpr, *ast.IndexExpr:
+					astSites = append(astSites, fmt.Sprintf("(%s, %s)", leanStr(recv+fd.Name.Name), leanStr(src(x))))
+				}
+				return true
+			})
+		}
+	}
+	fmt.Fprintf(&out, "/-- every slice / index expression of tick/ast/parser.go and tick/ast/node.go: (function, source). -/\ndef astSliceSites : List (String × String) := [%s]\n\n", strings.Join(astSites, ",\n  "))
+
 	out.WriteString("end Kap.C05.Gen\n")
 	path := filepath.Join(lean, "Kap", "Gen", "C05.lean")
 	os.MkdirAll(filepath.Dir(path), 0o755)
